@@ -441,11 +441,16 @@ func (w *World) buildASTNewIndex() {
 			// a reviewed function whose signature changed keeps the parameters it had (what the
 			// tables say about them still holds): only parameters of a type the reviewed
 			// signature did not mention are read as what the callers pass
-			oldSig := ""
+			// (a type the new signature mentions more often than the reviewed one did is
+			// ambiguous - all parameters of that type are read through the callers)
+			var oldTypes map[string]int
+			newTypes := map[string]int{}
 			if !w.isNewName(k) {
-				oldSig = w.base.sigs[k]
-				if i := strings.Index(oldSig, "|func("); i >= 0 {
-					oldSig = oldSig[i:]
+				oldTypes = sigParamTypes(w.base.sigs[k])
+				if sg, ok := fi.Obj.Type().(*types.Signature); ok {
+					for i := 0; i < sg.Params().Len(); i++ {
+						newTypes[short(types.TypeString(sg.Params().At(i).Type(), nil))]++
+					}
 				}
 			}
 			i := 0
@@ -456,7 +461,7 @@ func (w *World) buildASTNewIndex() {
 				_, isVariadic := f.Type.(*ast.Ellipsis)
 				for _, n := range f.Names {
 					if o := info.Defs[n]; o != nil {
-						if oldSig == "" || !strings.Contains(oldSig, short(types.TypeString(o.Type(), nil))) {
+						if ts := short(types.TypeString(o.Type(), nil)); oldTypes == nil || oldTypes[ts] == 0 || newTypes[ts] > oldTypes[ts] {
 							w.newParams[o] = newParam{Key: k, Idx: i, Variadic: isVariadic}
 						}
 					}
@@ -1501,4 +1506,37 @@ func (w *World) absorbedInto(gone string, host *FuncInfo) bool {
 		}
 	}
 	return true
+}
+
+// sigParamTypes: the parameter types of a funcSigKey string, counted.
+func sigParamTypes(sig string) map[string]int {
+	out := map[string]int{}
+	i := strings.Index(sig, "|func(")
+	if i < 0 {
+		return out
+	}
+	rest := sig[i+len("|func("):]
+	depth, start := 0, 0
+	for j := 0; j < len(rest); j++ {
+		switch rest[j] {
+		case '(', '[', '{':
+			depth++
+		case ')', ']', '}':
+			if depth == 0 {
+				if t := strings.TrimSpace(rest[start:j]); t != "" {
+					out[t]++
+				}
+				return out
+			}
+			depth--
+		case ',':
+			if depth == 0 {
+				if t := strings.TrimSpace(rest[start:j]); t != "" {
+					out[t]++
+				}
+				start = j + 1
+			}
+		}
+	}
+	return out
 }
